@@ -26,6 +26,7 @@ def gen(rng, arch):
     later = {}               # name -> value of symbols defined at the end
     nlab = 0
     probes = []
+    scope = None             # the most recent global label (local labels are listed under its name)
     for _ in range(rng.randrange(4, 24)):
         r = rng.random()
         if r < 0.22:
@@ -46,7 +47,7 @@ def gen(rng, arch):
             lines.append("@endmeta"); cur = []
         elif r < 0.52:
             nlab += 1; n = "lab%d" % nlab
-            lines.append(n + ":"); syms[n] = (here, list(cur))
+            lines.append(n + ":"); syms[n] = (here, list(cur)); scope = n
             if rng.random() < 0.4:
                 k = rng.randrange(0, 5); lines.append("@ds %d" % k); here += k
         elif r < 0.62:
@@ -85,8 +86,13 @@ def gen(rng, arch):
                     lines.append("@redefl %s, %s + 2" % (n, ln)); syms[n] = (v + 2, list(cur))
         elif r < 0.86:
             nlab += 1; sn = "Stc%d" % nlab
-            lines += ["@struct " + sn, "  fa 2", "  fb @dw", "@endstruct"]
-            syms[sn] = (4, []); syms[sn + ".fa"] = (0, [("@SIZEOF", "2")]); syms[sn + ".fb"] = (2, [("@SIZEOF", "2")])
+            big1, big2 = rng.choice([(16, 12), (10, 100), (9, 255), (32, 11)])
+            lines += ["@struct " + sn, "  fa 2", "  fb @dw", "  fc %d" % big1, "  fd @sizeof .fc - %d" % (big1 - big2) if big1 >= big2 else "  fd %d" % big2, "@endstruct"]
+            syms[sn] = (4 + big1 + big2, []); syms[sn + ".fa"] = (0, [("@SIZEOF", "2")]); syms[sn + ".fb"] = (2, [("@SIZEOF", "2")])
+            syms[sn + ".fc"] = (4, [("@SIZEOF", str(big1))]); syms[sn + ".fd"] = (4 + big1, [("@SIZEOF", str(big2))])
+        elif r < 0.90 and scope is not None:
+            nlab += 1; n = "%s.lc%d" % (scope, nlab)
+            lines.append(".lc%d:" % nlab); syms[n] = (here, list(cur))
         elif syms:
             n = rng.choice(list(syms))
             keys = [k for k, _ in syms[n][1]]
